@@ -59,7 +59,15 @@ class Result:
         # an exception text that can only come from a slip in the harness itself must never be reported as a violation of the library
         err = str(detail.get("error", "") or detail.get("msg", "")) if isinstance(detail, dict) else ""
         if err.startswith(("NameError", "UnboundLocalError")) or ("NameError: name" in err and "is not defined" in err):
-            raise HarnessError("harness slip reported as a failure of %s: %s" % (site, err))
+            # only when the exception being handled right now was raised by a line of the harness itself (innermost frame under /verif);
+            # the same exception types raised inside the library are findings
+            tb = sys.exc_info()[2]
+            inner = None
+            while tb is not None:
+                inner = tb.tb_frame.f_code.co_filename
+                tb = tb.tb_next
+            if inner is not None and os.path.abspath(inner).startswith(VERIF + os.sep):
+                raise HarnessError("harness slip reported as a failure of %s: %s (raised in %s)" % (site, err, inner))
         self.fails.append(
             dict(site=site, clause=clause, cls=cls, detail=detail, sub=sub, case=case)
         )
